@@ -83,7 +83,14 @@ func mainEngine(o *Out, scnFile string, seed int64, count int, modes string, var
 			}
 			evs, _ := runEngineScenario(cfg, script)
 			id++
-			o.WriteScenario(asInt(line["scn"]), "engine", asStr(line["src"]), cfg.toJSON(), exp, evs)
+			// a re-execution always includes the comparison with (*Flow).Run
+			agree := true
+			if asStr(line["src"]) == "tlc" {
+				agree = flowRunAgrees(cfg, func() Script { return scriptFromHistory(exp) }, evs)
+			} else {
+				agree = flowRunAgrees(cfg, func() Script { return scriptForGenerated(cfg) }, evs)
+			}
+			o.WriteScenarioX(asInt(line["scn"]), "engine", asStr(line["src"]), cfg.toJSON(), exp, evs, agree)
 		}
 		return
 	}
